@@ -23,7 +23,7 @@ META = {
 
 
 def run_wrapper(handler, fault=None, resp_limit=None, seed=0):
-    sim = Sim(seed=seed, policy="random", max_points=60000, wall_limit=30, quiesce_limit=60.0)
+    sim = Sim(seed=seed, policy="pct" if (seed or 0) % 3 == 0 else "random", max_points=60000, wall_limit=30, quiesce_limit=60.0)
     backend = FakeBackend()
     res = {}
     with patched(sim):
@@ -243,6 +243,58 @@ def run(ctx):
                 ctx.traces_validated += 1
     ctx.sample({"behaviour": cases[0][0], "out": cases[0][1].get("out")}, limit=2)
     classification(ctx)
+    client_boundary(ctx)
+
+
+def client_boundary(ctx, component="client"):
+    """Whatever goes wrong inside LambdaClient.checkpoint / get_execution_state (the service call itself, or a response
+    this SDK cannot parse) leaves the client as the classified error type - the wrapper's table is defined on those."""
+    from aws_durable_execution_sdk_python.exceptions import CheckpointError, GetExecutionStateError
+    from aws_durable_execution_sdk_python.lambda_service import LambdaClient
+
+    good_op = {"Id": "a", "Type": "STEP", "Status": "SUCCEEDED"}
+    responses = [
+        ("ok", {"CheckpointToken": "t2", "NewExecutionState": {"Operations": [good_op]}}),
+        ("unknown-status", {"CheckpointToken": "t2", "NewExecutionState": {"Operations": [dict(good_op, Status="PAUSED")]}}),
+        ("unknown-type", {"CheckpointToken": "t2", "NewExecutionState": {"Operations": [dict(good_op, Type="GADGET")]}}),
+        ("missing-id", {"CheckpointToken": "t2", "NewExecutionState": {"Operations": [{"Type": "STEP", "Status": "STARTED"}]}}),
+        ("operations-not-a-list", {"CheckpointToken": "t2", "NewExecutionState": {"Operations": 7}}),
+        ("raises", RuntimeError("network")),
+    ]
+
+    class Boto:
+        def __init__(self, r):
+            self.r = r
+
+        def checkpoint_durable_execution(self, **kw):
+            if isinstance(self.r, Exception):
+                raise self.r
+            return self.r
+
+        def get_durable_execution_state(self, **kw):
+            if isinstance(self.r, Exception):
+                raise self.r
+            return {"Operations": self.r["NewExecutionState"]["Operations"], "NextMarker": None}
+
+    for name, r in responses:
+        for api, errcls in (("checkpoint", CheckpointError), ("get_execution_state", GetExecutionStateError)):
+            ctx.evaluations += 1
+            c = LambdaClient(client=Boto(r))
+            try:
+                if api == "checkpoint":
+                    c.checkpoint("arn", "t1", [], None)
+                else:
+                    c.get_execution_state("arn", "t1", "m")
+                got = "returned"
+            except errcls:
+                got = "classified"
+            except BaseException as e:  # noqa: BLE001
+                got = "escaped:" + type(e).__name__
+            ctx.count(f"client.{api}.{got.split(':')[0]}")
+            if got.startswith("escaped"):
+                ctx.violate("C18.client_error_escapes_classification", {"behaviour": f"client|{api}|{name}"}, {"got": got}, component)
+            elif name == "ok" and got != "returned":
+                ctx.violate("C18.client_rejects_well_formed_response", {"behaviour": f"client|{api}|{name}"}, {"got": got}, component)
 
 
 def classification(ctx):
